@@ -24,6 +24,8 @@ type VStore struct {
 	MutOps       []int      // operation count at each mutation (attempted writes / removes, also failed ones)
 	ops          int        // count of all operations (read, write, remove)
 	FailAt       int        // 1-based index of the operation that returns ErrInjected; 0 = never
+	FailAtMut    int        // 1-based index among the MUTATING operations (write / remove) that fails; 0 = never
+	muts         int
 	Failed       bool
 
 	// one-shot pause point: the next Write whose key contains pauseKey signals `paused` and waits for `resume`
@@ -61,6 +63,24 @@ func NewVStore(rmMissingErr bool) *VStore {
 	return &VStore{data: make(map[string][]byte), RmMissingErr: rmMissingErr}
 }
 
+// mutTick counts a write / remove (call with the lock held, before tick)
+func (s *VStore) mutTick() error {
+	s.muts++
+	if s.FailAtMut != 0 && s.muts == s.FailAtMut {
+		s.Failed = true
+		s.ops++
+		return ErrInjected
+	}
+	return nil
+}
+
+// MutCount: number of mutating operations so far
+func (s *VStore) MutCount() int {
+	s.mu.Lock()
+	defer s.mu.Unlock()
+	return s.muts
+}
+
 func (s *VStore) tick() error {
 	s.ops++
 	if s.FailAt != 0 && s.ops == s.FailAt {
@@ -88,6 +108,9 @@ func (s *VStore) Write(ctx context.Context, key string, body []byte, options *st
 	}
 	defer s.mu.Unlock()
 	s.MutOps = append(s.MutOps, s.ops+1)
+	if err := s.mutTick(); err != nil {
+		return err
+	}
 	if err := s.tick(); err != nil {
 		return err
 	}
@@ -117,6 +140,9 @@ func (s *VStore) Remove(ctx context.Context, key string) error {
 	s.mu.Lock()
 	defer s.mu.Unlock()
 	s.MutOps = append(s.MutOps, s.ops+1)
+	if err := s.mutTick(); err != nil {
+		return err
+	}
 	if err := s.tick(); err != nil {
 		return err
 	}
